@@ -185,7 +185,7 @@ impl<T> Whole<T> {
 
 // ===== extracted: src/sequence.rs =====
 
-    // extracted from src/sequence.rs:464  `fn remove_unchecked(self, idx: usize) -> (T, Self::Output)`
+    // extracted from src/sequence.rs:500  `fn remove_unchecked(self, idx: usize) -> (T, Self::Output)`
     pub fn remove_unchecked<T, N: ArrayLength>(this: Slots<T, N>, idx: usize) -> (ret: (T, Seq<T>))
         requires
             this.ok(),
@@ -213,7 +213,7 @@ impl<T> Whole<T> {
     }
     proof fn reach_remove_unchecked<T, N: ArrayLength>(this: Slots<T, N>, idx: usize) requires this.ok(), this.all_live(), idx < N::n(), { assert(false); } /*OB:canary.remove_unchecked:*/
 
-    // extracted from src/sequence.rs:482  `fn swap_remove_unchecked(self, idx: usize) -> (T, Self::Output)`
+    // extracted from src/sequence.rs:519  `fn swap_remove_unchecked(self, idx: usize) -> (T, Self::Output)`
     pub fn swap_remove_unchecked<T, N: ArrayLength>(this: Slots<T, N>, idx: usize) -> (ret: (T, Seq<T>))
         requires
             this.ok(),
@@ -239,7 +239,7 @@ impl<T> Whole<T> {
     }
     proof fn reach_swap_remove_unchecked<T, N: ArrayLength>(this: Slots<T, N>, idx: usize) requires this.ok(), this.all_live(), idx < N::n(), { assert(false); } /*OB:canary.swap_remove_unchecked:*/
 
-    // extracted from src/sequence.rs:398  `fn remove(self, idx: usize) -> (T, Self::Output)`
+    // extracted from src/sequence.rs:433  `fn remove(self, idx: usize) -> (T, Self::Output)`
     pub fn remove<T, N: ArrayLength>(this: Slots<T, N>, idx: usize) -> (ret: PanicOr<(T, Seq<T>)>)
         requires
             this.ok(),
@@ -258,7 +258,7 @@ impl<T> Whole<T> {
     }
     proof fn reach_remove<T, N: ArrayLength>(this: Slots<T, N>, idx: usize) requires this.ok(), this.all_live(), { assert(false); } /*OB:canary.remove:*/
 
-    // extracted from src/sequence.rs:425  `fn swap_remove(self, idx: usize) -> (T, Self::Output)`
+    // extracted from src/sequence.rs:460  `fn swap_remove(self, idx: usize) -> (T, Self::Output)`
     pub fn swap_remove<T, N: ArrayLength>(this: Slots<T, N>, idx: usize) -> (ret: PanicOr<(T, Seq<T>)>)
         requires
             this.ok(),
@@ -277,7 +277,7 @@ impl<T> Whole<T> {
     }
     proof fn reach_swap_remove<T, N: ArrayLength>(this: Slots<T, N>, idx: usize) requires this.ok(), this.all_live(), { assert(false); } /*OB:canary.swap_remove:*/
 
-    // extracted from src/sequence.rs:202  `fn append(self, last: T) -> Self::Longer`
+    // extracted from src/sequence.rs:211  `fn append(self, last: T) -> Self::Longer`
     pub fn append<T, N: ArrayLength>(this: Seq<T>, last: T) -> (ret: Seq<T>)
         requires
             this.len() == N::n(),
@@ -301,7 +301,7 @@ impl<T> Whole<T> {
     }
     proof fn reach_append<T, N: ArrayLength>(this: Seq<T>, last: T) requires this.len() == N::n(), N::n() < usize::MAX, { assert(false); } /*OB:canary.append:*/
 
-    // extracted from src/sequence.rs:218  `fn prepend(self, first: T) -> Self::Longer`
+    // extracted from src/sequence.rs:228  `fn prepend(self, first: T) -> Self::Longer`
     pub fn prepend<T, N: ArrayLength>(this: Seq<T>, first: T) -> (ret: Seq<T>)
         requires
             this.len() == N::n(),
@@ -325,7 +325,7 @@ impl<T> Whole<T> {
     }
     proof fn reach_prepend<T, N: ArrayLength>(this: Seq<T>, first: T) requires this.len() == N::n(), N::n() < usize::MAX, { assert(false); } /*OB:canary.prepend:*/
 
-    // extracted from src/sequence.rs:244  `fn pop_back(self) -> (Self::Shorter, T)`
+    // extracted from src/sequence.rs:255  `fn pop_back(self) -> (Self::Shorter, T)`
     pub fn pop_back<T, N: ArrayLength>(this: Seq<T>) -> (ret: (Seq<T>, T))
         requires
             this.len() == N::n(),
@@ -351,7 +351,7 @@ impl<T> Whole<T> {
     }
     proof fn reach_pop_back<T, N: ArrayLength>(this: Seq<T>) requires this.len() == N::n(), N::n() >= 1, { assert(false); } /*OB:canary.pop_back:*/
 
-    // extracted from src/sequence.rs:255  `fn pop_front(self) -> (T, Self::Shorter)`
+    // extracted from src/sequence.rs:267  `fn pop_front(self) -> (T, Self::Shorter)`
     pub fn pop_front<T, N: ArrayLength>(this: Seq<T>) -> (ret: (T, Seq<T>))
         requires
             this.len() == N::n(),
@@ -377,7 +377,7 @@ impl<T> Whole<T> {
     }
     proof fn reach_pop_front<T, N: ArrayLength>(this: Seq<T>) requires this.len() == N::n(), N::n() >= 1, { assert(false); } /*OB:canary.pop_front:*/
 
-    // extracted from src/sequence.rs:293  `fn split(self) -> (Self::First, Self::Second)`
+    // extracted from src/sequence.rs:306  `fn split(self) -> (Self::First, Self::Second)`
     pub fn split<T, N: ArrayLength, K: ArrayLength>(this: Seq<T>) -> (ret: (Seq<T>, Seq<T>))
         requires
             this.len() == N::n(),
@@ -404,7 +404,7 @@ impl<T> Whole<T> {
     }
     proof fn reach_split<T, N: ArrayLength, K: ArrayLength>(this: Seq<T>) requires this.len() == N::n(), K::n() <= N::n(), { assert(false); } /*OB:canary.split:*/
 
-    // extracted from src/sequence.rs:371  `fn concat(self, rest: Self::Rest) -> Self::Output`
+    // extracted from src/sequence.rs:387  `fn concat(self, rest: Self::Rest) -> Self::Output`
     pub fn concat<T, N: ArrayLength, M: ArrayLength>(this: Seq<T>, rest: Seq<T>) -> (ret: Seq<T>)
         requires
             this.len() == N::n(),
